@@ -167,12 +167,11 @@ package statefulset
 //@   ensures err == nil && set.Spec.UpdateStrategy.RollingUpdate != nil && set.Spec.UpdateStrategy.RollingUpdate.Partition != nil ==> fresh(restored.Spec.UpdateStrategy.RollingUpdate.Partition) && deref(restored.Spec.UpdateStrategy.RollingUpdate.Partition) == deref(set.Spec.UpdateStrategy.RollingUpdate.Partition)
 
 // usesCurrent: the condition under which newVersionedStatefulSetPod builds the pod from the current revision
-//@ spec func usesCurrent(cs *apps.StatefulSet, ordinal int) bool = (cs.Spec.UpdateStrategy.Type == "RollingUpdate" && cs.Spec.UpdateStrategy.RollingUpdate == nil && ordinal < cs.Status.CurrentReplicas) || (cs.Spec.UpdateStrategy.RollingUpdate != nil && ordinal < deref(cs.Spec.UpdateStrategy.RollingUpdate.Partition))
+//@ spec func usesCurrent(cs *apps.StatefulSet, ordinal int) bool = (cs.Spec.UpdateStrategy.Type == "RollingUpdate" && cs.Spec.UpdateStrategy.RollingUpdate == nil && ordinal < cs.Status.CurrentReplicas) || (cs.Spec.UpdateStrategy.RollingUpdate != nil && cs.Spec.UpdateStrategy.RollingUpdate.Partition != nil && ordinal < deref(cs.Spec.UpdateStrategy.RollingUpdate.Partition))
 
 //@ func newVersionedStatefulSetPod
 //@   trusted "temporarily assumed: built from newStatefulSetPod (see C06)"
 //@   requires currentSet != nil && updateSet != nil
-//@   requires currentSet.Spec.UpdateStrategy.RollingUpdate != nil ==> currentSet.Spec.UpdateStrategy.RollingUpdate.Partition != nil
 //@   requires 0 <= ordinal
 //@   ensures result != nil && fresh(result) && ordOf(result) == ordinal && !isCreatedS(result) && !isTerminatingS(result)
 //@   ensures [C07] revOf(result) == ite(usesCurrent(currentSet, ordinal), currentRevision, updateRevision)
@@ -186,6 +185,8 @@ package statefulset
 //@   requires set != nil && pod != nil
 //@   pure
 
+// partitionOf: the rolling-update partition; an absent block or partition means 0, a negative one selects every ordinal
+//@ spec func partitionOf(s *apps.StatefulSet) int = ite(s.Spec.UpdateStrategy.RollingUpdate == nil || s.Spec.UpdateStrategy.RollingUpdate.Partition == nil, 0, ite(deref(s.Spec.UpdateStrategy.RollingUpdate.Partition) < 0, 0, deref(s.Spec.UpdateStrategy.RollingUpdate.Partition)))
 //@ spec func isNewP(p *v1.Pod) bool = p >= gAlloc0 && !isCreatedS(p) && !isTerminatingS(p)
 //@ spec func inRangeE(o int, rc int, E set[int]) bool = 0 <= o && o < rc && !E[o]
 
@@ -201,9 +202,8 @@ package statefulset
 //@   requires snapdistinct: forall i int, j int :: {pods[i], pods[j]} 0 <= i && i < j && j < len(pods) ==> pods[i] != pods[j] && (ordOf(pods[i]) >= 0 ==> ordOf(pods[i]) != ordOf(pods[j]))
 //@   requires snapphase: forall k int :: {pods[k]} 0 <= k && k < len(pods) ==> isCreatedS(pods[k])
 //@   profile defaulted requires set.Spec.UpdateStrategy.Type == "RollingUpdate" || set.Spec.UpdateStrategy.Type == "OnDelete"
-//@   profile defaulted requires set.Spec.UpdateStrategy.RollingUpdate != nil ==> set.Spec.UpdateStrategy.RollingUpdate.Partition != nil && deref(set.Spec.UpdateStrategy.RollingUpdate.Partition) >= 0
 //@   at entry: ghost gSnap = pods; ghost gR = deref(set.Spec.Replicas); ghost gStrategy = set.Spec.UpdateStrategy.Type
-//@   at entry: ghost gPartition = ite(set.Spec.UpdateStrategy.RollingUpdate == nil, 0, deref(set.Spec.UpdateStrategy.RollingUpdate.Partition))
+//@   at entry: ghost gPartition = partitionOf(set)
 //@   at entry: ghost gCurRev = currentRevision.Name; ghost gUpdRev = updateRevision.Name; ghost gMonotonic = set.Spec.PodManagementPolicy != "Parallel"
 //@   at entry: ghost gDeleting = set.DeletionTimestamp != nil; ghost gNact = 0; ghost gActOrd = 0 - 1; ghost gUpdDeletes = 0
 //@   at entry: ghost gCreated = emptyset(); ghost gReplaceDue = emptyset(); ghost gDeleted = emptyset(); ghost gAlloc0 = allocMark()
